@@ -1,6 +1,7 @@
 package main
 
 import (
+	"encoding/json"
 	"fmt"
 	"go/token"
 	"go/types"
@@ -50,6 +51,20 @@ type Engine struct {
 	maxInlineInstrs int
 	maxDispatch     int
 	models          map[string]*model
+	extraOverlay    map[string]string // path -> replacement file (self-test mutations)
+}
+
+func (eng *Engine) readExtraOverlay(path string) error {
+	data, err := os.ReadFile(path)
+	if err != nil {
+		return err
+	}
+	var doc struct{ Replace map[string]string }
+	if err := json.Unmarshal(data, &doc); err != nil {
+		return err
+	}
+	eng.extraOverlay = doc.Replace
+	return nil
 }
 
 func newEngine(repo string) *Engine {
@@ -81,6 +96,13 @@ func (eng *Engine) load(mirror string, patterns []string) error {
 			data, _ := os.ReadFile(filepath.Join(mirror, dir, contractFile))
 			overlay[filepath.Join(eng.repo, dir, contractFile)] = data
 		}
+	}
+	for p, alt := range eng.extraOverlay {
+		data, err := os.ReadFile(alt)
+		if err != nil {
+			return err
+		}
+		overlay[p] = data
 	}
 	cfg := &packages.Config{Mode: packages.LoadAllSyntax, Dir: eng.repo, BuildFlags: []string{"-tags=verif"}, Overlay: overlay,
 		Env: append(os.Environ(), "GOFLAGS=-mod=mod", "GOPROXY=off", "GOSUMDB=off", "GOTOOLCHAIN=local")}
